@@ -3,10 +3,19 @@ Scenario:  <seed> <outalloc 0|1> <nthreads> { <nops> op*nops }*nthreads
   op ::= :a <slot> <size> <entry 0 new|1 new nothrow|2 new debug|3 new[]|4 new[] nothrow|5 new[] debug|6 malloc>
        | :f <slot> <entry 0 delete|1 delete[]|2 free> | :r <slot> <size> | :o <slot> (overrun the block by one byte)
        | :w <entry 0 delete|1 delete[]|2 free|3 realloc> (a pointer that was never allocated) | :t (next test; thread 0 only)
+       | :x <slot> <how> realloc(slot, n) for an n that is turned down: how 0 n = SIZE_MAX-16, 4 n = the smallest size the detector's
+         overflow guard refuses (refused before the block is looked at); 1 n = SIZE_MAX/2, 3 n = the largest size the guard admits
+         (the underlying realloc fails), 2 an ordinary n with the PlatformSpecificRealloc seam made to return NULL.  The slot must be
+         empty or hold an intact malloc-family block; it keeps it.
+       | :s <ms> directive (counted as an item of the script, not an operation): the thread's next operation rests <ms> milliseconds
+         INSIDE the locked region (the underlying allocator sleeps when it is reached with the lock held; an operation that does not
+         reach it rests just before the lock is given back) while the other threads ask for the lock.
 Thread 0 runs its script as consecutive tests of a real registry on the thread that started the run; the other threads are
 real pthreads running concurrently.  <seed> drives the pre-emption injected at the mutex lock/unlock seams (0 = none) and,
 on the model side, the schedule.  <outalloc>: the test output allocates (through the same overloads) while printing a failure.
-Observation:  :ok <ntests> verdict* <wfail> <adv> <distinct> <foreign> <rest> <n> (<thread> <slot> <size>)*n   |  :hang"""
+<overlap>: the largest number of threads seen between the return of PlatformSpecificMutexLock and the call of
+PlatformSpecificMutexUnlock at one moment, minus the one thread the lock admits.
+Observation:  :ok <ntests> verdict* <wfail> <adv> <distinct> <foreign> <rest> <overlap> <n> (<thread> <slot> <size>)*n   |  :hang"""
 import re
 ID = "C10"
 FLAVOURS = ["tsan", "noexc", "plain"]      # TSan (exceptions on) | ASan+UBSan, -fno-exceptions -fno-rtti | no sanitizer, full speed
@@ -19,12 +28,20 @@ RULE = ("(a) every release entry point (delete, delete[], free, realloc) x every
         "output allocating or not x position in the test (first/after other operations/followed by operations that must be skipped) x "
         "0-3 concurrent workers, exhaustively; (b) worker storms: 2-16 threads x 4-120 operations over all seven allocating and four "
         "releasing entry points, sizes on {0,1,..,9,15,16,17,100,1000,4096}, releases of NULL, realloc of NULL/held blocks, thread 0 "
-        "running 1-5 clean tests; (c) mixed: thread 0 with 1-6 tests holding 0-3 misuses at random positions while 1-7 workers run. "
+        "running 1-5 clean tests; (c) mixed: thread 0 with 1-6 tests holding 0-3 misuses at random positions while 1-7 workers run; "
+        "(d) realloc requests that are turned down: five ways (SIZE_MAX-16, smallest size the overflow guard refuses, largest size it "
+        "admits, SIZE_MAX/2, seam made to fail) x held malloc block / NULL x test thread / worker x block then freed / reallocated / "
+        "still held, exhaustively, and sprinkled (7%) over the scripts of (b) and (c); (e) the holder of the lock RESTS inside the "
+        "locked region (sleeping allocator seam) for 1.05-2.6 s -- in alloc, realloc (between taking the record out and putting the "
+        "new one in), free, a refused realloc -- while 2-7 other threads ask for the lock, every thread without a rest of its own "
+        "holding its last operation back until a rest has begun: 6 scenarios in the quick tier (2 hand-written, run as one concurrent "
+        "batch), 2+16 in the thorough tier. "
         "Pre-emption injected at every lock/unlock (yield / short sleep by seed). non-trivial = at least two threads with operations, "
         "or a misuse")
 ASSUMPTIONS = ["only the thread that runs the tests misuses the allocator (a report ends the test by longjmp to a buffer on that thread's stack)",
                "threads pass only their own pointers (or one that was never allocated) and allocate into empty pointer variables",
-               "the underlying malloc/realloc succeed (sizes <= 64 KiB); the mutex is the platform's pthread mutex",
+               "the underlying malloc succeeds (sizes <= 64 KiB) and so does realloc except where a script asks for a size that cannot be had or makes the seam fail; the mutex is the platform's pthread mutex",
+               "a realloc that is turned down is given NULL or an intact malloc-family block (not an overrun one, not one of another family)",
                "the race on the C wrapper's file-static malloc_count in TestHarness_c.cpp is outside the detector's state and suppressed"]
 ALLOC_FAM = [0, 0, 0, 1, 1, 1, 2]
 SIZES = [0, 1, 2, 3, 4, 5, 7, 8, 9, 15, 16, 17, 24, 100, 1000, 4096]
@@ -90,6 +107,18 @@ class Sim:
             self.slots[k] = [sz, 2, False]
         return True
 
+    def refused(self, how=None, k=None):
+        c = [k2 for k2, v in self.slots.items() if v[1] == 2 and not v[2]] * 3 + self.free_slots()[:1]
+        if k is None:
+            if not c:
+                return False
+            k = self.rng.choice(c)
+        self.emit(":x %x %x" % (k, self.rng.randrange(5) if how is None else how))
+        return True
+
+    def rest(self, ms):
+        self.emit(":s %x" % ms)
+
     def boundary(self):
         self.emit(":t")
         self.skip = False
@@ -130,8 +159,10 @@ class Sim:
                 self.alloc() or self.free_ok()
             elif c < 0.75:
                 self.free_ok() or self.alloc()
-            elif c < 0.92:
+            elif c < 0.87:
                 self.realloc_ok()
+            elif c < 0.94:
+                self.refused() or self.realloc_ok()
             else:
                 self.free_null()
 
@@ -201,8 +232,83 @@ def mixed(rng):
     return line(rng.randrange(1, 1 << 24), rng.randrange(2), ths)
 
 
+def refused_family(rng):
+    """(d): every way of being turned down x held malloc block / NULL x test thread / worker x what happens to the block next"""
+    out = []
+    for how in range(5):
+        for held in (True, False):
+            for on_worker in (False, True):
+                for after in range(3):
+                    t0, w = Sim(rng, True, 8), Sim(rng, False, 6)
+                    a, b = (w, t0) if on_worker else (t0, w)
+                    a.benign(2)
+                    k = a.free_slots()[0]
+                    if held:
+                        a.alloc(k, 6)
+                    a.refused(how, k)
+                    if after == 0 and held:
+                        a.emit(":f %x 2" % k)
+                        del a.slots[k]
+                    elif after == 1:
+                        sz = a.size()
+                        a.emit(":r %x %x" % (k, sz))
+                        a.slots[k] = [sz, 2, False]
+                        a.refused((how + 1) % 5, k)
+                    a.benign(2)
+                    b.benign(8)
+                    out.append(line(rng.randrange(0, 1 << 20), 0, [t0, w]))
+    return out
+
+
+def rest_scenario(rng, ms, where, nthreads, on):
+    """(e): thread `on` rests `ms` inside the locked region in an operation of kind `where`; the others have plenty to do"""
+    ths = []
+    for i in range(nthreads):
+        t = Sim(rng, i == 0, 8)
+        if i == 0 and rng.random() < 0.5:
+            t.benign(3)
+            t.boundary()
+        if i == on:
+            t.benign(rng.randrange(0, 3))
+            k = t.free_slots()[0]
+            if where == "alloc":
+                t.rest(ms)
+                t.alloc(k, rng.randrange(7))
+            else:
+                t.alloc(k, 6)
+                t.rest(ms)
+                if where == "realloc":
+                    sz = t.size()
+                    t.emit(":r %x %x" % (k, sz))
+                    t.slots[k] = [sz, 2, False]
+                elif where == "free":
+                    t.emit(":f %x 2" % k)
+                    del t.slots[k]
+                else:                               # a refused realloc: 0/4 never reach the allocator, 1/2/3 do
+                    t.refused({"refused-guard": rng.choice([0, 4]), "refused-underlying": rng.choice([1, 2, 3])}[where], k)
+            t.benign(rng.randrange(1, 4))
+        else:
+            t.benign(rng.randrange(6, 16))
+        ths.append(t)
+    return line(rng.randrange(0, 1 << 20), 0, ths)
+
+
+REST_KINDS = ["alloc", "realloc", "free", "refused-guard", "refused-underlying"]
+
+
+def rest_family(tier, rng):
+    if tier == "quick":
+        plan = [(1150, "realloc", 3, 1), (1300, "alloc", 4, 0), (2500, "free", 3, 2), (1200, "refused-guard", 8, 5)]
+    else:
+        plan = [(rng.choice([1050, 1100, 1200, 1500, 2000, 2600]), REST_KINDS[i % 5], n, rng.randrange(n))
+                for i in range(16) for n in [rng.choice([2, 3, 4, 8])]]
+    return [rest_scenario(rng, ms, where, n, on) for ms, where, n, on in plan]
+
+
 def generate(tier, rng):
-    out = exhaustive(rng)
+    out = rest_family(tier, rng)            # first: next to the rests of corpus/C10/stall.scn, one concurrent batch in the harness
+    out += exhaustive(rng)
+    out += refused_family(rng)
     ns, nm = (110, 140) if tier == "quick" else (700, 1000)
     for _ in range(ns):
         out.append(storm(rng, tier != "quick" or rng.random() < 0.3))
@@ -222,7 +328,7 @@ def parse(s):
         i += 1
         ops = []
         for _ in range(k):
-            w = {":a": 4, ":f": 3, ":r": 3, ":o": 2, ":w": 2, ":t": 1}[t[i]]
+            w = {":a": 4, ":f": 3, ":r": 3, ":o": 2, ":w": 2, ":t": 1, ":x": 3, ":s": 2}[t[i]]
             ops.append(t[i:i + w])
             i += w
         ths.append(ops)
@@ -296,7 +402,18 @@ def classify(s):
     lab.append("tests:%d" % (1 + sum(1 for o in ths[0] if o[0] == ":t")))
     if s.split()[0] == "0":
         lab.append("no-injection")
-    return lab
+    flat = [o for ops in ths for o in ops]
+    for o in flat:
+        if o[0] == ":x":
+            lab.append("refused-realloc:" + ["SIZE_MAX-16", "SIZE_MAX/2", "seam-fails", "largest-admitted", "smallest-refused"][int(o[2], 16)])
+    rests = [int(o[1], 16) for o in flat if o[0] == ":s"]
+    if rests:
+        lab.append("holder-rests:" + ("<=1.5s" if max(rests) <= 1500 else ">1.5s"))
+        for ops in ths:
+            for a, b in zip(ops, ops[1:]):
+                if a[0] == ":s":
+                    lab.append("rest-in:" + {":a": "alloc", ":r": "realloc", ":f": "free", ":x": "refused-realloc"}.get(b[0], "other"))
+    return sorted(set(lab), key=lab.index)
 
 
 def signature(s, o):
@@ -308,6 +425,14 @@ def signature(s, o):
         return ("sanitizer/crash (%s): " % tag) + (m.group(1) + " in " + m.group(2) if m else o[:70])
     if o.startswith(":hang"):
         return "hang (%s)" % tag
+    f = o.split()
+    try:
+        if int(f[7 + int(f[1], 16)], 16) > 0:
+            return "two threads inside the locked region (%s)" % tag
+    except (IndexError, ValueError):
+        pass
+    if any(x[0] == ":x" for ops in ths for x in ops):
+        return "accounting wrong, script with a refused realloc (%s)" % tag
     return "accounting wrong (%s)" % tag
 
 
@@ -320,6 +445,12 @@ def shrink(s):
         yield fmt(seed, oa, ths[:i] + ths[i + 1:])
     if oa != "0":
         yield fmt(seed, "0", ths)
+    for i, ops in enumerate(ths):              # a rest costs seconds per candidate: try without, and with the shortest that matters
+        for j, o in enumerate(ops):
+            if o[0] == ":s":
+                yield fmt(seed, oa, ths[:i] + [ops[:j] + ops[j + 1:]] + ths[i + 1:])
+                if int(o[1], 16) > 1100:
+                    yield fmt(seed, oa, ths[:i] + [ops[:j] + [[":s", "44c"]] + ops[j + 1:]] + ths[i + 1:])
     for i, ops in enumerate(ths):
         n = len(ops)
         if n >= 4:
@@ -352,7 +483,11 @@ def py_valid(s):
                     return False
                 skip = False
                 continue
-            if skip:
+            if skip or o[0] == ":s":
+                continue
+            if o[0] == ":x":
+                if int(o[2], 16) > 4 or (o[1] in slots and (slots[o[1]][0] != 2 or slots[o[1]][1])):
+                    return False
                 continue
             fail = False
             if o[0] == ":a":
@@ -389,14 +524,20 @@ LEVEL_TEXT = ("Machine-checked (Coq) theorems over an executable interleaving mo
               "critical sections applied one after another in lock-acquisition order, the completed run satisfies the oracle (outstanding "
               "set = union of the per-thread sequential results, a misuse fails exactly its test, sequence numbers handed out once "
               "each), no reachable deadlock and every schedule can be completed, the lock is held only by a thread inside a wrapper "
-              "(also after a misuse report); and, over the wiring table regenerated from the source on every run, that all eleven "
+              "(also after a misuse report), at most one thread is between Lock() and Unlock() in every state of every execution however "
+              "long the holder rests while the others are given turns (the model's Lock never gives up: a blocked thread's step is a "
+              "no-op), a realloc that is turned down (size refused by the overflow guard, or the underlying realloc failing: record "
+              "taken out and put back) leaves the outstanding records, their numbers, the counter and the lock as they were; and, over the wiring table regenerated from the source on every run, that all eleven "
               "entry points take the lock first and perform the matching detector action.  The pre-repair reporter (D17) and a wiring "
               "with one unlocked wrapper are refuted by computed witnesses.  Tied to the code by real pthreads (1-16) running the same "
               "scripts through new/new[]/malloc/realloc/free/delete under ThreadSanitizer, ASan+UBSan without exceptions, and "
               "unsanitized, with pre-emption injected at lock/unlock, a real test registry and the real reporter, compared with the "
-              "extracted model and judged by the extracted model-free spec.")
+              "extracted model and judged by the extracted model-free spec.  Runs in which the holder of the lock sleeps 1.05-2.6 s at "
+              "the PlatformSpecificMalloc/Realloc/Free seam inside the locked region while the other threads ask for the lock: the "
+              "largest number of threads between the return of Lock and the call of Unlock is counted by wrappers around the platform "
+              "function pointers and must be one; realloc requests that cannot be met (five sizes / a failing seam) in the scripts.")
 LEVEL_NOTE = ("PARTIAL by nature: the absence of data races and the behaviour of pthread mutexes are exhibited only by the instrumented "
-              "runs (TSan silent, deadline / no-progress detector), not by the theorems; the model carries the logic (why the lock "
+              "runs (TSan silent, occupancy counter of the locked region = 1, deadline / no-progress detector), not by the theorems; a platform Lock that gives up after a time T is exhibited only by rests longer than T (the runs rest up to 2.6 s); the model carries the logic (why the lock "
               "discipline makes every schedule equivalent to a serial one).  Misuse is confined to the test thread (assumption).  "
               "Trusted: Coq kernel, extraction, tools/gen/C10.py (wiring extraction by anchored patterns), harness, generator, the "
               "schedule derived from the seed in ocaml/c10_driver.ml.  Modelled not verified: the C++ itself; longjmp by its contract; "
